@@ -170,6 +170,8 @@ def shards(tier):
             for route in range(2):
                 if q and route == 1 and shape != 0:
                     continue
+                if q and shape == 2 and tc == 1:
+                    continue
                 for s2d in (False, True):
                     for s2b in (False, True):
                         if shape == 3 and (tc == 1 or route == 1):
